@@ -54,9 +54,9 @@ RULE = (
     "case = one PAIR: scheduler kind (FIFO random / grid; HyperbandScheduler stopping, promotion, pasha, "
     "cost_promotion, rush_stopping, rush_promotion; synchronous Hyperband custom / geometric; DEHB custom / "
     "geometric; PBT; regularised evolution via baselines.REA or FIFOScheduler(searcher=RegularizedEvolution); "
-    "MedianStoppingRule(FIFO); MOASHA with per-metric mode lists, all or a subset of the metrics flipped, scalar / default mode) x constructor arguments x metric table in "
+    "MedianStoppingRule(FIFO); RUSHScheduler (stopping / promotion) and BoundingBox(random search) built from mirrored multi-fidelity offline tables (1-3 tasks, crossing curves), plus top_k_hyperparameter_configurations itself; MOASHA with per-metric mode lists, all or a subset of the metrics flipped, scalar / default mode) x constructor arguments x metric table in "
     "general position x 1-8 workers x arrival policy x optional failure plan (synchronous Hyperband also: a burst of failures in the first rung leaving fewer valid results than the next rung has slots) x sparse reporters and scripts ending before max_t with mixed-sign values (MOASHA) x with/without max_resource_attr x "
-    "checkpointing; or one generated reporting history (1-3 metrics, 2-10 trials, random update batches). "
+    "checkpointing x 0-6 serialisation round trips (dill / deepcopy) of both twins at random points of the history; or one generated reporting history (1-3 metrics, 2-10 trials, random update batches). "
     "Distinct = digest of (kind, sequence of suggestion kinds and non-CONTINUE decisions with their levels, how the "
     "pair ended). Non-trivial = the pair was compared to its end without exclusion and contains at least one "
     "rule-based non-CONTINUE decision (below max_t) and at least one resume / warm start where the kind has them "
@@ -77,6 +77,9 @@ ASSUMPTIONS = [
     "time keeper (set_time_keeper)",
     "a relation between two runs cannot see a defect that is itself symmetric under (mode, sign) exchange (e.g. both "
     "signs swapped): those are the business of C03/C04/C05/C19",
+    "both twins go through the same serialisation round trips; a round trip that fails alike in both runs is "
+    "counted (roundtrip_failed_in_both) and skipped, one that fails in one run only is a violation",
+    "ZeroShotTransfer (needs xgboost, not installed here) and the quantile-based transfer searcher are not paired",
     "Tuner.best_config is exercised on a real Tuner object constructed around a stub TrialBackend (never run); "
     "whole simulated Tuner runs are not paired here",
 ]
